@@ -312,6 +312,15 @@ Definition model_call_returns (k idx : N) : bool :=
 Definition cache_round_model (acked : list N) : cstate :=
   run_trace cexec (flat_map (fun v => cwriter v v) acked) cinit.
 
+(* the first value is written and flushed to a file; the monitor looks (idle); the other
+   writers run; the monitor releases - or not *)
+Definition idle_free_round_model (acked : list N) : cstate :=
+  match acked with
+  | [] => cinit
+  | v :: rest =>
+      run_trace cexec (cwriter v v ++ [CFlush; CIdle 0] ++ flat_map (fun v => cwriter v v) rest ++ [CFree 0]) cinit
+  end.
+
 (* ------------------------------------------------------------------ *)
 (* cases                                                               *)
 (* ------------------------------------------------------------------ *)
@@ -383,7 +392,7 @@ Definition check_case (c : case) : N :=
       code (forallb (fun r => set_eq (cvisible (cache_round_model (fst r))) (snd r)) rounds && negb bad)
            (forallb (fun r => subset (fst r) (snd r)) rounds && negb bad)
   | CIdleFree rounds bad =>
-      code (forallb (fun r => set_eq (cvisible (cache_round_model (fst r))) (snd r)) rounds && negb bad)
+      code (forallb (fun r => set_eq (cvisible (idle_free_round_model (fst r))) (snd r)) rounds && negb bad)
            (forallb (fun r => subset (fst r) (snd r)) rounds && negb bad)
   | CHh nodes bad =>
       (* nothing invented (found <= attempted) / nothing acknowledged is lost *)
